@@ -389,6 +389,24 @@ class C02(Property):
         'sympy\'s gcd of rational numbers is modelled as gcd(numerators)/lcm(denominators) (QQ.gcd), gcd_list with its early exit; tied by the injected-candidate correspondence',
         'species names are distinct within each side (a name repeated on one side collapses in the returned dict; outside the property\'s quantifier over sets)',
     )
+    clauses_without_theorem = (
+        "'the smallest-integers mode returns a positive solution of MINIMAL coefficient sum': that CBC's vector is minimal is "
+        "certified per instance only (verified checker minimalBySearch on the real output + independent enumeration in the oracle, "
+        "instances with coefficient sum <= 24); proved is only that the gate never alters a coprime canonical vector (gate_complete_on_ray, t = 1)",
+        "'identically in any free parameter' (mode True with a parametric answer): no theorem - chempy applies no residual check in mode "
+        "True (gate_symbolic_mode_skips_residual_witness); decided per instance by the oracle (sympy expansion of both totals) and by the "
+        "Lean checker balanced_inst at sampled parameter values",
+        "integrality / coprimality of an answer whose vector still held symbols at the normalisation step: rests on sympy's polynomial gcd, "
+        "not modelled (gate_sound_symbolic_partial proves balanced + positive + length only); never observed (mode False refuses such vectors)",
+        "honest multi-ray cases in modes True/False: the model's candidate is built FROM the real result, so that correspondence is circular "
+        "for the gate (it only exercises the key/dict construction and the free-symbol refusal); these cases are decided by the oracle "
+        "(independent Fractions / sympy expansion), not by the model",
+        "single-ray clause in mode True: single_ray_answer needs the solver's contract there (the vector linsolve returns lies in the null "
+        "space and has one entry per species) because mode True checks no residual",
+        "that linsolve + symbol surgery / CBC do hand back a positive multiple of the ray (the premise of gate_complete_on_ray) and that "
+        "generated instances are single-ray (exact rank in the harness): per instance, planted answers",
+        "process-level state (e.g. a cache keyed by species name) cannot be expressed by a pure model: covered by histories in the oracle only",
+    )
     anchors = (('chempy/chemistry.py', 'balance_stoichiometry'), ('chempy/chemistry.py', '_solve_balancing_ilp_pulp'),
                ('chempy/chemistry.py', 'Substance.composition_keys'))
 
